@@ -332,10 +332,10 @@ def shards(tier, seed):
     n_h = 12 if tier == 'quick' else 16
     for k in range(n_h):
         out.append(dict(kind='hyp', seed=seed * 1000 + k,
-                        n=500 if tier == 'quick' else 8000))
+                        n=500 if tier == 'quick' else 40000))
     for k in range(4):
         out.append(dict(kind='nested', seed=seed * 1000 + 100 + k,
-                        n=60 if tier == 'quick' else 1500))
+                        n=60 if tier == 'quick' else 4000))
     out.append(dict(kind='fixed'))
     out.append(dict(kind='purity'))
     return out
